@@ -62,6 +62,11 @@ def formation_getters(ctx, rid="R2"):
             ctx.ok(o, "sums Vehicle::%s" % own)
         else:
             ctx.undecided(o, "no direct call of a Vehicle figure")
+    # a vehicle reports the figures of its own type, each under its own name
+    vt = VT
+    for fn, other in (("seats", "capacity"), ("capacity", "seats")):
+        getter(ctx, "%s.vehicle-%s-is-its-types-%s" % (rid, fn, fn), VEH + "::" + fn, [call(vt + "::" + fn)], [call(vt + "::" + other)],
+               text="Vehicle::%s returns its type's %s" % (fn, fn))
 
 
 def required_vehicles_pairing(ctx, rid="R2"):
@@ -132,6 +137,12 @@ def rules(ctx):
     required_vehicles_pairing(ctx)
     formation_getters(ctx)
     limit_combination(ctx)
+    from .C02 import growth_guards
+    before = len(ctx.obligations)
+    growth_guards(ctx)      # the local search serves a trip up to the limit that applies to it, not beyond and not less
+    ctx.obligations[before:] = [o for o in ctx.obligations[before:] if "R2." in o.id]
+    for ob in ctx.obligations[before:]:
+        ob.id = ob.id.replace("C07/R2.", "C07/R6.guards.")
     objective.level_order(ctx, "R3")
     unserved_is_a_sum(ctx, "R3")
     # R4 frames: post-search stages never touch formations / unserved counters
